@@ -51,7 +51,7 @@ PROPS = {
         "level_text": "Every entry into Runner.Run is compared with the set of stages the reference model allows to be in flight, at "
                       "every quiescent point of every explored completion order; dependencies are held blocked through a settle "
                       "window so a premature start has the chance to happen. Complete over DAGs<=3 (all orders/outcomes/schedules), "
-                      "all 543 DAGs on 4 stages, sampled to 8 stages + nesting.",
+                      "all 543 DAGs on 4 stages, sampled to 8 stages + nesting. A pipeline object may be used by two stages of one pipeline, after one another or in flight together (its stages run once; both uses end when it is resolved), with later stages depending on the second use.",
         "level_note": "Trusts the 100-line reference model (model.go) and the quiescence detection; " + ENGINE_ASSUME[0],
         "rule": ENGINE_RULE + "Non-trivial for C01 = at least one dependency edge and at least 2 runs in flight at some point; "
                 "distinct = canonical JSON of (pipeline, declaration order, outcomes, choices).",
@@ -171,7 +171,7 @@ PROPS = {
                       "stage's overrides - no key private to another stage, no other stage's value - and the task's own settings "
                       "must be unchanged afterwards; repeated runs; in-process (recording Runner owns nothing but observes the "
                       "task object) and through the binary (values echoed by the commands, pwd -P); part real runs the shared-task "
-                      "API arrangement on the real runner with the task dir written as a template over a variable that stages override.",
+                      "API arrangement on the real runner with the task dir written as a template over a variable that stages override. The keys that tasks and stages set include names the runner maintains itself (ARGS, TASK_NAME, variable Args); every real execution prints them and the expectation carries the runner's defaults.",
         "level_note": "Overlap of concurrent stages at the binary level is provoked by sleep durations, not enumerated.",
         "rule": "api: rapid cases (task env/vars over 4+3 keys each present with p=1/3, stages with own subsets, arrangement drawn, "
                 "second pipeline, direct run, 1..2 repetitions); cli: the same plus stage/task dir. Non-trivial = >= 2 stages share the "
@@ -192,7 +192,7 @@ PROPS = {
                       "and stages; the printed value must be the highest level's. Untouched parent variables and TASK_NAME are checked "
                       "on every run, hooks on a quarter; stage cases run `taskctl pp tk`, so the direct run behind the pipeline is "
                       "checked in the same invocation. Dirs: every subset of {stage, task, context} dir x start directory x run mode "
-                      "x admissible task-dir forms, pwd -P in commands, before and after.",
+                      "x admissible task-dir forms, pwd -P in commands, before and after. A drawn subset of the levels defines the name with the empty value (a value like any other).",
         "level_note": "{{.Root}} in a task dir is used only when taskctl starts in the project root (from a sub-directory the code and the "
                       "README disagree about Root and the property does not settle it).",
         "rule": "env: rapid draws (permutation of six value ranks, run mode, hooks), then all subsets; dirs: full enumeration. Non-trivial = "
@@ -238,7 +238,7 @@ PROPS = {
                       "TempDir, Args, ArgsList and $ARGS (with and without `--`). Argument vectors of up to 5 words (target-like, "
                       "k=v, -x, --set, --, -c ...) after `--` must arrive verbatim and in order and never run as targets (marker "
                       "tasks named like every word). An undefined reference at every command position (and in dir) of 1..4-command "
-                      "tasks: commands before it ran, it and later ones did not, exit status non-zero.",
+                      "tasks: commands before it ran, it and later ones did not, exit status non-zero. In two thirds of the cases a second variable y is defined at its own drawn subset of the four levels, so command lines carry two --set flags in either order.",
         "level_note": "Words are shell-safe (the harness passes argv directly, no shell involved).",
         "rule": "vars: rapid (mode, dash, <=3 words, value permutation) then all subsets; args: rapid; undefined: full enumeration. "
                 "Non-trivial = >= 2 levels present (vars); >= 2 words of which one is target-like / starts with '-' / has '=' (args); "
@@ -261,7 +261,7 @@ PROPS = {
                       "retry; ~10 ms normally); recorded pids must disappear; no marker may appear after the cancel completed; "
                       "interrupted and later runs must report errors; waiting stages must not be done. Commands may ignore SIGINT "
                       "(2 s kill grace); at the return of every single Cancel call - also of an overlapping second one - the interrupted "
-                      "commands must be gone.",
+                      "commands must be gone. Tasks may run in an execution context with before/after commands of its own; the marker log is snapshotted at the return of every Cancel call and nothing may be added to it afterwards.",
         "level_note": "'At any moment' is sampled at marker granularity (plus drawn delays of 0..20 ms), not at instruction granularity.",
         "rule": "matrix: in-flight 0..4 x waiting {0,2} x 6 injection points x once/twice-seq/twice-conc x runner/scheduler + condition "
                 "errors (quick: double cancels only for <= 2 in flight; thorough: all); cancel: rapid over the same space with drawn "
@@ -301,7 +301,7 @@ PROPS = {
                       "commands must succeed (every command gets the full timeout). Run must return within the sum of the commands' "
                       "deadlines (+2.5 s kill grace for the SIGINT-ignoring child) + 1.5 s slack, report failure also with "
                       "allow_failure, start no later command, and leave no process behind; an over-running `after` is cut short and "
-                      "does not change the result.",
+                      "does not change the result. Hook lists have up to three commands, including several 0.6-timeout commands in one hook list (each hook command gets the full timeout as well).",
         "level_note": "Time bounds are generous (a 2x slower termination passes); a breach is re-tried once with 5x slack before it is reported.",
         "rule": "matrix: 52 cases (exhaustive over the listed grid at timeout 300/500 ms); random: rapid (timeout 200..1000 ms, 1..4 commands, "
                 "hooks). Non-trivial = an over-runner at position >= 1, or in a hook, or with allow_failure, or >= 2 commands of 0.6 x timeout; "
@@ -321,7 +321,7 @@ PROPS = {
                       "appends a token to one trace file. Per context: exactly one `up` before every other token; failing `up` => no "
                       "task command and every Run errors; #before = #after = executions, and in every prefix #before >= #started tasks "
                       "and #after <= #ended tasks; sequential runs strictly before, task, after; exactly one `down` after everything, "
-                      "none for unused contexts, also when a CLI target failed.",
+                      "none for unused contexts, also when a CLI target failed. In the cli part a target is a task run directly or a pipeline of 1..3 consecutive tasks chained by depends_on, mixed on one command line.",
         "level_note": "A task skipped by its own condition may or may not count as an execution for before/after; `down` after a failed "
                       "`up` may or may not run (statement silent).",
         "rule": "rapid cases; non-trivial = >= 2 tasks share a context in a concurrent mode, or a task has a hook/condition, or `up` fails; "
@@ -341,7 +341,7 @@ PROPS = {
                       "mutations (wrong type incl. null, delete, unknown key, duplicate), are emitted as YAML/JSON/TOML, optionally get "
                       "YAML anchors / merge keys / odd keys and a byte-level mutation (truncate, splice invalid UTF-8/NUL/BOM, replace "
                       "a byte by a syntax character); then list, validate, show <each task>, graph <each pipeline> must end within "
-                      "10 s (40 s on the retry) with exit status 0 or 1 and no panic / fatal error / goroutine dump.",
+                      "10 s (40 s on the retry) with exit status 0 or 1 and no panic / fatal error / goroutine dump. Stages draw depends_on from the stages declared before them, so accepted pipelines have edges (and `graph` draws them), besides the hostile forms.",
         "level_note": "URL imports are not exercised (no network). Native fuzzing (thorough) cannot be pinned to VERIF_SEED; its "
                       "reproducible unit is the saved input, replayed at binary level.",
         "rule": "rapid cases; non-trivial = the document carries at least one mutation; distinct = canonical JSON of all files. Classes: "
@@ -362,7 +362,7 @@ PROPS = {
                       "unknown stage, depends_on->stage of another pipeline, depends_on->name of a task or pipeline, self-dependency, watcher->unknown task, duplicate stage "
                       "name, pipeline inclusion cycle of length 1..3} at a drawn position: `list` must exit non-zero with a message and "
                       "`validate` must not say 'file is valid', without crashing. Unbroken configurations must be accepted and every "
-                      "pipeline must run to exit 0 within 10 s (40 s on the retry) without a fatal log line.",
+                      "pipeline must run to exit 0 within 10 s (40 s on the retry) without a fatal log line. Break kind dupstage writes a stage twice (task or pipeline stage alike); pipelines may be included by several stages of the including pipeline.",
         "level_note": "Commands of the generated tasks are `true`; what the pipelines do is not the subject here.",
         "rule": "rapid cases; every case is non-trivial; distinct = (break kind, position class, canonical JSON). Classes: break kind x "
                 "position class, format.",
@@ -422,7 +422,7 @@ PROPS = {
                       "excluded and unrelated files; every subscribed operation on an observed path must append a line with that "
                       "EventName and EventPath within 4 s (also the 2nd..6th), no line may carry an unsubscribed event or an "
                       "unobserved path. pairs: every operation kind on every observed file A followed by a write on every other "
-                      "observed file B (names that are textual prefixes of one another included).",
+                      "observed file B (names that are textual prefixes of one another included). The observed files include a dot-file and the content of a dot-directory.",
         "level_note": "Depends on the kernel's inotify delivery: extra lines of a subscribed type (a remove is preceded by an attribute "
                       "change) are accepted; a path selected only through 'X/**' matching X itself is accepted either way; a late event "
                       "is re-tried once with 12 s bounds.",
